@@ -103,30 +103,49 @@ func (s *Schema) RemoveRel(typ string, rel string) {
 // The types must already exist in the schema.
 func (s *Schema) AddTwoWayRel(rel Rel) error {
 	rel1 := rel.Normalize()
-	rel2 := rel.Invert()
-	found1 := false
-	found2 := false
+	rel2 := rel1.Invert()
+	i1 := -1
+	i2 := -1
 
 	for i := range s.Types {
 		if s.Types[i].Name == rel1.FromType {
-			found1 = true
+			i1 = i
+		}
 
-			err := s.Types[i].AddRel(rel1)
-			if err != nil {
-				return err
-			}
-		} else if s.Types[i].Name == rel2.FromType {
-			found2 = true
-
-			err := s.Types[i].AddRel(rel2)
-			if err != nil {
-				return err
-			}
+		if s.Types[i].Name == rel2.FromType {
+			i2 = i
 		}
 	}
 
-	if found1 && found2 {
+	// Whatever fails, the schema is left as it was.
+	if i1 >= 0 {
+		err := s.Types[i1].AddRel(rel1)
+		if err != nil {
+			return err
+		}
+	}
+
+	if i2 >= 0 {
+		err := s.Types[i2].AddRel(rel2)
+		if err != nil {
+			if i1 >= 0 {
+				s.Types[i1].RemoveRel(rel1.FromName)
+			}
+
+			return err
+		}
+	}
+
+	if i1 >= 0 && i2 >= 0 {
 		return nil
+	}
+
+	if i1 >= 0 {
+		s.Types[i1].RemoveRel(rel1.FromName)
+	}
+
+	if i2 >= 0 {
+		s.Types[i2].RemoveRel(rel2.FromName)
 	}
 
 	return fmt.Errorf(
